@@ -131,6 +131,20 @@ def cfg_built():
     return Config("built")
 
 
+BUILT_FIXTURES = ("alias_fix.c", "alloc_fix.c", "constsrc_fix.c", "divzero_fix.c", "extent_fix.c", "samesrc_fix.c", "stream_fix.c")
+
+
+def cfg_builtfx():
+    """the built configuration plus every rule's fixture file (one export shared by all rules of a run); a rule looks only at
+    its own fixture and must ignore the others (is_foreign_fixture)"""
+    return Config("built-fx", extra_files=[os.path.join(VERIF, "selftest", "fixtures", f) for f in BUILT_FIXTURES])
+
+
+def is_foreign_fixture(path, own):
+    owns = [own] if isinstance(own, str) else list(own or ())
+    return path.startswith(os.path.join(VERIF, "selftest", "fixtures") + os.sep) and path not in owns
+
+
 def cfg_assert():
     return Config("assert", flags=["-DWANT_ASSERT=1"])
 
